@@ -26,6 +26,23 @@ type c19elem struct {
 	Name, NS string
 	Text     string // character data (concatenated) when there are no child elements
 	Kids     []*c19elem
+	AnyText  bool // expected tree only: the text is not constrained (type empty has no lexical form)
+}
+
+// same names, namespaces, order and text
+func c19same(got, want *c19elem) bool {
+	if got.Name != want.Name || got.NS != want.NS || len(got.Kids) != len(want.Kids) {
+		return false
+	}
+	if len(want.Kids) == 0 && !want.AnyText && got.Text != want.Text {
+		return false
+	}
+	for i := range want.Kids {
+		if !c19same(got.Kids[i], want.Kids[i]) {
+			return false
+		}
+	}
+	return true
 }
 
 func (e *c19elem) canon(b *strings.Builder) {
@@ -136,7 +153,7 @@ func c19leafText(t c15type, text string) string {
 		if text == "md" {
 			return "m:md"
 		}
-	case "decimal64":
+	case "decimal64", "decimal64-9":
 		f, _ := strconv.ParseFloat(text, 64)
 		return strconv.FormatFloat(f, 'f', -1, 64)
 	}
@@ -145,6 +162,7 @@ func c19leafText(t c15type, text string) string {
 
 // expected element tree of a body
 func c19expect(sc *c15schema, kids []*gen.SNode, body []*gen.DNode) []*c19elem {
+	kids, body = gen.Flatten(kids, body)
 	var out []*c19elem
 	for i, s := range kids {
 		d := body[i]
@@ -160,7 +178,7 @@ func c19expect(sc *c15schema, kids []*gen.SNode, body []*gen.DNode) []*c19elem {
 					out = append(out, &c19elem{Name: s.Name, NS: ns, Text: c19leafText(t, p)})
 				}
 			} else {
-				out = append(out, &c19elem{Name: s.Name, NS: ns, Text: c19leafText(t, *d.Leaf)})
+				out = append(out, &c19elem{Name: s.Name, NS: ns, Text: c19leafText(t, *d.Leaf), AnyText: t.name == "empty"})
 			}
 		case "cont":
 			if d.Present {
@@ -264,7 +282,7 @@ func C19(c *core.Ctx) {
 					c.Violation(core.Replay{Kind: "property-failure", Class: "wellformed-" + writer, Summary: writer + ": output is not a well-formed single-root document: " + perr.Error() + ": " + short(doc), Input: input})
 					continue
 				}
-				if parsed.String() != wantElem.String() {
+				if !c19same(parsed, wantElem) {
 					c.Violation(core.Replay{Kind: "property-failure", Class: "elements-" + writer,
 						Summary: fmt.Sprintf("%s: document holds %s; the tree is %s", writer, short(parsed.String()), short(wantElem.String())), Input: input, Impl: parsed.String(), Spec: wantElem.String()})
 					continue
